@@ -688,5 +688,275 @@ Section RHP.
       + intros [->|[Hl _]]; auto.
   Qed.
 
+  (* ---------------------------------------------------------------- 4c. deletion *)
+  Lemma backshift_S fuel (l : list slot) i :
+    backshift E (S fuel) l i =
+      match at_ l (nxt (length l) i) with
+      | Some (h, e) =>
+        if 0 <? dist (length l) (nxt (length l) i) h
+        then backshift E fuel (upd (nxt (length l) i) None (upd i (Some (h, e)) l)) (nxt (length l) i)
+        else Some l
+      | None => Some l
+      end.
+  Proof. reflexivity. Qed.
+
+  (* weights with a virtual weight w at the hole i: "robin-hood modulo one hole" means
+     the local ordering holds for these *)
+  Definition Wh (l : list slot) (i w a : nat) : nat := if a =? i then w else wt l a.
+  Definition HoleRH (l : list slot) (i w : nat) : Prop :=
+    forall a, a < length l -> Wh l i w (nxt (length l) a) <= S (Wh l i w a).
+
+  (* the hole has reached a slot whose successor is empty or at home: the ordering is whole again *)
+  Lemma hole_done (l : list slot) i w : i < length l -> at_ l i = None -> HoleRH l i w ->
+    wt l (nxt (length l) i) <= 1 -> RHL l.
+  Proof.
+    intros Hi Hat Hh Hn a Ha. pose proof (Hh a Ha) as H1. unfold Wh in H1.
+    pose proof (wt_none _ _ Hat) as H0.
+    destruct (Nat.eqb_spec (nxt (length l) a) i) as [Hb|Hb]; destruct (Nat.eqb_spec a i) as [Hai|Hai];
+      try rewrite Hb; try subst a; lia.
+  Qed.
+
+  (* one backward shift: the entry after the hole moves into it *)
+  Lemma hole_step (l : list slot) i w h e q : WF l -> UQ l -> i < length l ->
+    at_ l i = None -> HoleRH l i w ->
+    at_ l (nxt (length l) i) = Some (h, e) -> dist (length l) (nxt (length l) i) h = S q ->
+    let ni := nxt (length l) i in
+    let l1 := upd ni None (upd i (Some (h, e)) l) in
+    length l1 = length l /\ WF l1 /\ UQ l1 /\ at_ l1 ni = None /\ HoleRH l1 ni (S (S q)) /\
+    (forall x, Holds l1 x <-> Holds l x) /\ occupied l1 = occupied l /\
+    (forall a, a <> i -> a <> ni -> at_ l1 a = at_ l a).
+  Proof.
+    intros Hwf Huq Hi Hat Hh Hnat Hd. cbv zeta. set (n := length l) in *.
+    set (ni := nxt n i) in *. set (l1 := upd ni None (upd i (Some (h, e)) l)).
+    assert (Hni : ni < n) by (apply nxt_lt; assumption).
+    assert (Hne : ni <> i) by (intros Heq; rewrite Heq in Hnat; congruence).
+    destruct (Hwf _ _ _ Hnat) as [Hhm Hhn]. fold n in Hhn.
+    assert (Hq : dist n i h = q) by (apply (dist_nxt_back n i h q); assumption).
+    assert (Hlen2 : length (upd i (Some (h, e)) l) = n) by apply upd_length.
+    assert (Hlen1 : length l1 = n) by (unfold l1; rewrite upd_length; assumption).
+    assert (Hat1 : forall a, at_ l1 a = if a =? ni then None else if a =? i then Some (h, e) else at_ l a).
+    { intros a. unfold l1. rewrite at_upd by (rewrite Hlen2; assumption).
+      destruct (Nat.eqb_spec a ni); [reflexivity|]. apply at_upd. assumption. }
+    assert (Hwt1 : forall a, wt l1 a = if a =? ni then 0 else if a =? i then S q else wt l a).
+    { intros a. unfold wt. rewrite Hlen1, Hat1. fold n.
+      destruct (Nat.eqb_spec a ni); [reflexivity|]. destruct (Nat.eqb_spec a i) as [->|]; [|reflexivity].
+      simpl. rewrite Hq. reflexivity. }
+    assert (Hwni : wt l ni = S (S q)) by (rewrite (wt_some _ _ _ _ Hnat); fold n; rewrite Hd; reflexivity).
+    split; [exact Hlen1|]. split; [|split; [|split; [|split; [|split; [|split]]]]].
+    - intros a g x Ha. rewrite Hlen1. rewrite Hat1 in Ha.
+      destruct (Nat.eqb_spec a ni); [discriminate|]. destruct (Nat.eqb_spec a i).
+      + injection Ha as <- <-. auto.
+      + eapply Hwf; eauto.
+    - intros a b g g' x x' Ha Hb Hxx. rewrite Hat1 in Ha, Hb.
+      destruct (Nat.eqb_spec a ni) as [|Hna]; [discriminate|].
+      destruct (Nat.eqb_spec b ni) as [|Hnb]; [discriminate|].
+      destruct (Nat.eqb_spec a i) as [->|Hai]; destruct (Nat.eqb_spec b i) as [->|Hbi]; auto.
+      + injection Ha as <- <-. exfalso. apply Hnb. symmetry. eapply Huq; eauto.
+      + injection Hb as <- <-. exfalso. apply Hna. eapply Huq; eauto.
+      + eapply Huq; eauto.
+    - rewrite Hat1, Nat.eqb_refl. reflexivity.
+    - intros a Ha. rewrite Hlen1 in *. unfold Wh. rewrite !Hwt1.
+      pose proof (Hh a Ha) as H1. pose proof (Hh i Hi) as H2. unfold Wh in H1, H2. fold n in H1, H2. fold ni in H1, H2.
+      rewrite Nat.eqb_refl in H2. destruct (Nat.eqb_spec ni i) as [|_]; [contradiction|].
+      rewrite Hwni in H2.
+      destruct (Nat.eqb_spec (nxt n a) ni) as [Hb|Hb].
+      + apply nxt_inj in Hb; auto. subst a. rewrite Nat.eqb_refl.
+        destruct (Nat.eqb_spec i ni); [congruence|]. lia.
+      + assert (Hai : a <> i) by (intros ->; apply Hb; reflexivity).
+        destruct (Nat.eqb_spec a i) as [|_]; [contradiction|].
+        destruct (Nat.eqb_spec (nxt n a) i) as [Hbi|Hbi]; destruct (Nat.eqb_spec a ni) as [Hani|Hani];
+          try subst a; try rewrite Hwni in *; lia.
+    - intros x. split; intros [a [g Ha]].
+      + rewrite Hat1 in Ha. destruct (Nat.eqb_spec a ni); [discriminate|].
+        destruct (Nat.eqb_spec a i).
+        * injection Ha as <- <-. exists ni, h. exact Hnat.
+        * exists a, g. exact Ha.
+      + destruct (Nat.eq_dec a ni) as [->|Hna].
+        * rewrite Hnat in Ha. injection Ha as <- <-. exists i, h. rewrite Hat1.
+          destruct (Nat.eqb_spec i ni); [congruence|]. rewrite Nat.eqb_refl. reflexivity.
+        * exists a, g. rewrite Hat1. destruct (Nat.eqb_spec a ni); [contradiction|].
+          destruct (Nat.eqb_spec a i) as [->|]; [congruence|]. exact Ha.
+    - pose proof (occupied_upd i (Some (h, e)) l Hi) as H1. rewrite Hat in H1.
+      pose proof (occupied_upd ni None (upd i (Some (h, e)) l) ltac:(rewrite Hlen2; assumption)) as H2.
+      rewrite at_upd_ne in H2 by auto. rewrite Hnat in H2. fold l1 in H2. simpl in H1, H2. lia.
+    - intros a Hai Hani. rewrite Hat1. destruct (Nat.eqb_spec a ni); [contradiction|].
+      destruct (Nat.eqb_spec a i); [contradiction|]. reflexivity.
+  Qed.
+
+  Lemma backshift_spec : forall fuel (l : list slot) i w z m,
+    WF l -> UQ l -> i < length l -> at_ l i = None -> HoleRH l i w ->
+    z = pos (length l) i m -> 0 < m -> m < length l -> at_ l z = None -> m < fuel ->
+    exists l', backshift E fuel l i = Some l' /\ core l' /\ length l' = length l /\
+      (forall x, Holds l' x <-> Holds l x) /\ occupied l' = occupied l.
+  Proof.
+    induction fuel as [|f IH]; intros l i w z m Hwf Huq Hi Hat Hh Hz Hm0 Hmn Hzn Hfuel; [lia|].
+    rewrite backshift_S. set (n := length l) in *. set (ni := nxt n i).
+    assert (Hdone : wt l ni <= 1 -> exists l', Some l = Some l' /\ core l' /\ length l' = n /\
+              (forall x, Holds l' x <-> Holds l x) /\ occupied l' = occupied l).
+    { intros Hw. exists l. split; [reflexivity|]. split; [|split; [reflexivity|split; [tauto|reflexivity]]].
+      split; [|split; assumption]. apply (hole_done l i w); assumption. }
+    destruct (at_ l ni) as [[h e]|] eqn:Hnat.
+    - destruct (Nat.ltb_spec 0 (dist n ni h)) as [Hpos|Hzero].
+      + destruct (dist n ni h) as [|q] eqn:Hd; [lia|].
+        destruct (hole_step l i w h e q Hwf Huq Hi Hat Hh Hnat Hd)
+          as [Hlen1 [Hwf1 [Huq1 [Hat1 [Hh1 [Hhold1 [Hocc1 Hsame]]]]]]].
+        fold n in Hlen1, Hat1, Hh1, Hhold1, Hocc1, Hsame. fold ni in Hlen1, Hat1, Hh1, Hhold1, Hocc1, Hsame |- *.
+        set (l1 := upd ni None (upd i (Some (h, e)) l)) in *.
+        assert (Hni : ni < n) by (apply nxt_lt; assumption).
+        assert (Hzi : z <> i) by (rewrite Hz; apply pos_ne_self; assumption).
+        assert (Hzni : z <> ni) by (intros ->; congruence).
+        assert (Hm1 : m <> 1).
+        { intros ->. apply Hzni. rewrite Hz. rewrite pos_S_nxt by lia. apply pos_0. assumption. }
+        destruct (IH l1 ni (S (S q)) z (m - 1)) as [l' [Hr [Hc' [Hlen' [Hh' Ho']]]]]; auto.
+        * rewrite Hlen1. assumption.
+        * rewrite Hlen1. rewrite Hz. replace m with (S (m - 1)) at 1 by lia. apply pos_S_nxt; lia.
+        * lia.
+        * rewrite Hlen1. lia.
+        * rewrite Hsame by assumption. assumption.
+        * lia.
+        * exists l'. split; [exact Hr|]. split; [exact Hc'|]. split; [lia|]. split; [|lia].
+          intros x. rewrite Hh'. apply Hhold1.
+      + apply Hdone. rewrite (wt_some _ _ _ _ Hnat). fold n. lia.
+    - apply Hdone. rewrite (wt_none _ _ Hnat). lia.
+  Qed.
+
+  (* Table_Rem / GC_Rem_Ptr on the raw array: empty slot i and shift the cluster back *)
+  Theorem delete_at_spec (l : list slot) i h e : core l -> at_ l i = Some (h, e) ->
+    occupied l < length l ->
+    exists l', delete_at E l i = Some l' /\ core l' /\ length l' = length l /\
+      (forall x, Holds l' x <-> Holds l x /\ ekey x <> ekey e) /\
+      S (occupied l') = occupied l.
+  Proof.
+    intros [HL [Hwf Huq]] Hat Hocc. pose proof (at_some_lt _ _ _ Hat) as Hi.
+    destruct (empty_slot_exists l Hocc) as [z [Hz Hzn]].
+    assert (Hzi : z <> i) by (intros ->; congruence).
+    unfold delete_at. set (n := length l) in *. set (l0 := upd i None l).
+    assert (Hlen0 : length l0 = n) by apply upd_length.
+    assert (Hat0 : forall a, at_ l0 a = if a =? i then None else at_ l a) by (intros a; apply at_upd; assumption).
+    destruct (backshift_spec (n + 2) l0 i (wt l i) z (dist n z i)) as [l' [Hr [Hc' [Hlen' [Hh' Ho']]]]].
+    - intros a g x Ha. rewrite Hlen0. rewrite Hat0 in Ha. destruct (Nat.eqb_spec a i); [discriminate|]. eapply Hwf; eauto.
+    - intros a b g g' x x' Ha Hb. rewrite Hat0 in Ha, Hb.
+      destruct (Nat.eqb_spec a i); [discriminate|]. destruct (Nat.eqb_spec b i); [discriminate|]. eapply Huq; eauto.
+    - rewrite Hlen0. assumption.
+    - rewrite Hat0, Nat.eqb_refl. reflexivity.
+    - intros a Ha. rewrite Hlen0 in *. unfold Wh.
+      assert (Hw : forall b, (if b =? i then wt l i else wt l0 b) = wt l b).
+      { intros b. unfold l0. rewrite wt_upd by assumption. destruct (Nat.eqb_spec b i) as [->|]; reflexivity. }
+      rewrite !Hw. apply HL. assumption.
+    - rewrite Hlen0. symmetry. apply pos_dist; assumption.
+    - destruct (dist n z i) eqn:Hd; [|lia]. apply dist_0 in Hd; auto. 
+    - rewrite Hlen0. apply dist_lt; assumption.
+    - rewrite Hat0. destruct (Nat.eqb_spec z i); [reflexivity|assumption].
+    - pose proof (dist_lt n z i Hi Hz). lia.
+    - exists l'. split; [exact Hr|]. split; [exact Hc'|]. split; [lia|]. split.
+      + intros x. rewrite Hh'. split.
+        * intros [a [g Ha]]. rewrite Hat0 in Ha. destruct (Nat.eqb_spec a i) as [|Hne]; [discriminate|].
+          split; [exists a, g; exact Ha|]. intros Hk. apply Hne. eapply Huq; eauto.
+        * intros [[a [g Ha]] Hk]. exists a, g. rewrite Hat0.
+          destruct (Nat.eqb_spec a i) as [->|]; [|exact Ha]. exfalso. apply Hk. congruence.
+      + rewrite Ho'. pose proof (occupied_upd i None l Hi) as Hou. rewrite Hat in Hou. fold l0 in Hou. simpl in Hou. lia.
+  Qed.
+
+  (* ---------------------------------------------------------------- 4d. rehash *)
+  Lemma UQ_tail s (l : list slot) : UQ (s :: l) -> UQ l.
+  Proof.
+    intros Huq a b g g' x x' Ha Hb Hxx.
+    assert (S a = S b) by (eapply Huq; [rewrite at_cons; exact Ha|rewrite at_cons; exact Hb|exact Hxx]). lia.
+  Qed.
+
+  (* no duplicate keys, list form: iteration yields every key once *)
+  Lemma UQ_NoDup (l : list slot) : UQ l -> NoDup (map ekey (entries l)).
+  Proof.
+    induction l as [|s l IH]; intros Huq; [constructor|].
+    rewrite entries_cons. pose proof (IH (UQ_tail _ _ Huq)) as Hnd.
+    destruct s as [[h e]|]; [|exact Hnd]. simpl. constructor; [|exact Hnd].
+    intros Hin. apply in_map_iff in Hin. destruct Hin as [x [Hk Hx]].
+    apply in_entries in Hx. destruct Hx as [a [g Ha]].
+    assert (0 = S a); [|lia]. eapply (Huq 0 (S a) h g e x); [reflexivity|rewrite at_cons; exact Ha|auto].
+  Qed.
+
+  Lemma NoDup_UQ (l : list slot) : NoDup (map ekey (entries l)) -> UQ l.
+  Proof.
+    induction l as [|s l IH]; intros Hnd.
+    - intros a b g g' x x' Ha. destruct a; discriminate.
+    - rewrite entries_cons in Hnd.
+      assert (Hnd' : NoDup (map ekey (entries l))) by (destruct s as [[h e]|]; [inversion Hnd|]; assumption).
+      specialize (IH Hnd').
+      intros a b g g' x x' Ha Hb Hxx.
+      destruct a as [|a]; destruct b as [|b]; auto.
+      + exfalso. unfold RobinHood.at_ in Ha; simpl in Ha. subst s. rewrite at_cons in Hb.
+        simpl in Hnd. inversion Hnd as [|? ? Hnin _]. apply Hnin. rewrite Hxx. apply in_map.
+        apply in_entries. exists b, g'. exact Hb.
+      + exfalso. unfold RobinHood.at_ in Hb; simpl in Hb. subst s. rewrite at_cons in Ha.
+        simpl in Hnd. inversion Hnd as [|? ? Hnin _]. apply Hnin. rewrite <- Hxx. apply in_map.
+        apply in_entries. exists a, g. exact Ha.
+      + rewrite at_cons in Ha, Hb. f_equal. eapply IH; eauto.
+  Qed.
+
+  Section Rehash.
+  Variable home_of : K -> nat -> nat.
+
+  (* Table_Rehash / GC_Rehash: re-inserting entries with pairwise distinct keys that are not
+     in the target array; every insertion is of an absent key, so ANY admissible displacement
+     rule will do *)
+  Lemma reinsert_spec : forall (old acc : list slot), core acc ->
+    (forall k, home_of k (length acc) = hm k) -> (forall k, hm k < length acc) ->
+    NoDup (map ekey (entries old)) ->
+    (forall x, In x (entries old) -> Absent acc (ekey x)) ->
+    occupied acc + occupied old <= length acc ->
+    exists acc', reinsert K E keq ekey swap on_eq home_of old acc = Some acc' /\
+      core acc' /\ length acc' = length acc /\
+      (forall x, Holds acc' x <-> Holds acc x \/ In x (entries old)) /\
+      occupied acc' = occupied acc + occupied old.
+  Proof.
+    induction old as [|s old IH]; intros acc Hc Hho Hhm Hnd Habs Hocc.
+    - exists acc. simpl. split; [reflexivity|]. split; [assumption|]. split; [reflexivity|].
+      split; [tauto|]. unfold RobinHood.occupied at 3; simpl. lia.
+    - rewrite entries_cons in Hnd, Habs. rewrite occupied_cons in Hocc.
+      destruct s as [[h0 e]|].
+      + simpl in Hnd, Habs, Hocc. inversion Hnd as [|? ? Hnin Hnd']; subst.
+        destruct (insert_absent_spec acc e Hc (Hhm _) ltac:(lia) (Habs e (or_introl eq_refl)))
+          as [acc1 [Hins [Hc1 [Hlen1 [Hh1 Ho1]]]]].
+        destruct (IH acc1) as [acc' [Hr [Hc' [Hlen' [Hh' Ho']]]]]; auto.
+        * rewrite Hlen1. assumption.
+        * rewrite Hlen1. assumption.
+        * intros x Hx a g y Ha Hk.
+          assert (Hy : Holds acc1 y) by (exists a, g; exact Ha).
+          apply Hh1 in Hy. destruct Hy as [[a' [g' Ha']]| ->].
+          -- eapply (Habs x (or_intror Hx)); eauto.
+          -- apply Hnin. rewrite Hk. apply in_map. assumption.
+        * rewrite Hlen1. lia.
+        * exists acc'. split.
+          { simpl. rewrite Hho, Hins. exact Hr. }
+          split; [exact Hc'|]. split; [lia|]. split.
+          -- intros x. rewrite Hh', Hh1, entries_cons. simpl. intuition auto.
+          -- rewrite occupied_cons. simpl. lia.
+      + simpl in Hocc. destruct (IH acc) as [acc' [Hr [Hc' [Hlen' [Hh' Ho']]]]]; auto.
+        exists acc'. split; [exact Hr|]. split; [exact Hc'|]. split; [exact Hlen'|]. split.
+        * intros x. rewrite Hh', entries_cons. tauto.
+        * rewrite occupied_cons. simpl. lia.
+  Qed.
+
+  Theorem rehash_spec (old : list slot) n : UQ old ->
+    (forall k, home_of k n = hm k) -> (forall k, hm k < n) -> occupied old <= n ->
+    exists l', rehash K E keq ekey swap on_eq home_of old n = Some l' /\
+      core l' /\ length l' = n /\
+      (forall x, Holds l' x <-> Holds old x) /\
+      occupied l' = occupied old.
+  Proof.
+    intros Huq Hho Hhm Hocc. unfold rehash.
+    destruct (reinsert_spec old (repeat None n)) as [l' [Hr [Hc' [Hlen' [Hh' Ho']]]]].
+    - apply core_repeat.
+    - rewrite repeat_length. assumption.
+    - rewrite repeat_length. assumption.
+    - apply UQ_NoDup. assumption.
+    - intros x _. apply Absent_repeat.
+    - rewrite repeat_length, occupied_repeat. lia.
+    - rewrite repeat_length in Hlen'. rewrite occupied_repeat in Ho'.
+      exists l'. split; [exact Hr|]. split; [exact Hc'|]. split; [exact Hlen'|]. split; [|exact Ho'].
+      intros x. rewrite Hh', in_entries. split; [intros [[a [g Ha]]|]; [rewrite at_repeat in Ha; discriminate|assumption]|auto].
+  Qed.
+  End Rehash.
+
   End Fixed.
 End RHP.
